@@ -15,8 +15,16 @@ import itertools
 import common
 
 ID = "C15"
-LEAN_MODULES = ["QProps.C15"]
+LEAN_MODULES = ["QProps.C15", "QProps.C15m"]
 THEOREMS = [
+    "RunLoop.split_run_on",
+    "RunLoop.split_many_on",
+    "MM.mm_stable_upto",
+    "MM.mm_stable_upto_grand",
+    "MM.mm_split_run",
+    "MM.mm_split_run_grand",
+    "MM.mm_split_many",
+    "MM.mm_split_run_after_edit",
     "RunLoop.positive_interval_calls",
     "RunLoop.positive_interval_set",
     "RunLoop.negative_interval_once",
